@@ -50,7 +50,7 @@ impl<K: KeyT, V: ValT> World<K, V> {
                     (0..uni).collect()
                 } else {
                     let mut v: Vec<u32> = slot.model.keys().copied().collect();
-                    v.extend([0, 1, uni.saturating_sub(1), uni / 2]);
+                    v.extend([0, 1 % uni.max(1), uni.saturating_sub(1), uni / 2]);
                     v
                 };
                 for kv in keys {
@@ -110,7 +110,7 @@ impl<K: KeyT, V: ValT> World<K, V> {
                     (0..uni).collect()
                 } else {
                     let mut v: Vec<u32> = slot.model.keys().copied().collect();
-                    v.extend([0, 1, uni.saturating_sub(1), uni / 2]);
+                    v.extend([0, 1 % uni.max(1), uni.saturating_sub(1), uni / 2]);
                     v
                 };
                 for kv in keys {
